@@ -109,6 +109,9 @@ def enumerate_vertices(names, ineq, eq):
 
 
 # ------------------------------------------------------------------ sets
+EXP_SET_KINDS = ('exp', 'log', 'pexp', 'plog', 'softplus', 'entropy', 'sumexp', 'sumlog', 'kldiv')
+
+
 class USet:
     """A set of realisations described by OCons over the z-names `names`."""
 
@@ -127,6 +130,8 @@ class USet:
                     kinds.add('poly')
                 elif k in ('norm2', 'sumsqr', 'quad', 'square'):
                     kinds.add('soc')
+                elif k in EXP_SET_KINDS:
+                    kinds.add('exp')
                 else:
                     kinds.add('other')
             else:
@@ -135,6 +140,8 @@ class USet:
             return 'poly'
         if 'other' in kinds:
             return 'other'
+        if 'exp' in kinds:
+            return 'exp' if kinds <= {'poly', 'exp'} else 'other'
         return 'soc' if kinds == {'soc'} else 'mixed'
 
     # ---- H-representation of the polyhedral part
@@ -259,6 +266,46 @@ class USet:
             else:
                 out += cons_z3(c, env)
         return out
+
+    def relaxed_poly(self):
+        """(G, H, T, aux): Poly lists G (g >= 0), H (h == 0), cone triples T ((x, y, z) in K_exp) and the names of
+        the existential auxiliaries, for sets with polyhedral and exponential-cone constraints."""
+        from .oracle import exp_normal
+        aux = []
+
+        def fresh(tag):
+            n = '_%s%d_%d' % (tag, id(self) % 9973, len(aux))
+            aux.append(n)
+            return Poly.var(n)
+        G, H, T = [], [], []
+        ineq, eq = self.hrep()
+        for coef, rhs in ineq:
+            G.append(Poly.const(rhs) - sum((Poly.var(n) * c for n, c in coef.items()), Poly()))
+        for coef, rhs in eq:
+            H.append(Poly.const(rhs) - sum((Poly.var(n) * c for n, c in coef.items()), Poly()))
+        for c in self.cons:
+            if c.is_atom() and c.expr.kind in EXP_SET_KINDS:
+                if c.sense != 'le':
+                    raise HarnessError('equality on a convex atom in a set')
+                t, g = exp_normal(c.expr, fresh)
+                T += t
+                G += g
+            elif c.is_atom() and c.expr.kind not in ('abs', 'norm1', 'norminf'):
+                raise HarnessError('relaxed_poly: unsupported atom %s' % c.expr.kind)
+        return G, H, T, aux
+
+    def relaxed(self, env):
+        """(constraints, triples) as z3 terms: every membership (x, y, z) in K_exp is replaced by its linear
+        consequences y >= 0, z >= 0, y >= x + z (c*e^{a/c} >= c + a) and returned as a triple; the existential
+        auxiliaries of the atoms are fresh free variables.  Weaker than membership: hypothesis side only."""
+        G, H, T, aux = self.relaxed_poly()
+        for n in aux:
+            env.m[n] = env.new('a')
+        out = [env.p(g) >= 0 for g in G] + [env.p(h) == 0 for h in H]
+        trip = [(env.p(x), env.p(y), env.p(z)) for x, y, z in T]
+        for x, y, z in trip:
+            out += [y >= 0, z >= 0, y >= x + z]
+        return out, trip
 
     def contains(self, point, tol=0):
         from .oracle import cons_eval
